@@ -27,25 +27,43 @@ def maskCauseM : List (Str × Json) → List (Str × Json)
   | (k, v) :: kvs => (k, maskCause v) :: maskCauseM kvs
 end
 
-/-- oracle document: {"<fn>": [[payload, [reply0, reply1, …]], …], …}; the last reply repeats;
-a function or payload not listed answers `{}` -/
-def oracleFn (o : Json) : TaskFn := fun fn payload n =>
+/-- oracle document: {"<fn>": [[payload, [reply0, reply1, …], [delay0, delay1, …]?], …], …}; the last reply
+(and its delay) repeats; a function or payload not listed answers `{}` after 10 ms.  A delay is a number of
+milliseconds, or `null` for a worker that never answers. -/
+def oracleEntry (o : Json) (fn : Str) (payload : Json) : Option (List Json × List Json) :=
   match o with
   | .obj kvs =>
     match objGet kvs fn with
     | some (.arr entries) =>
-      let rec find : List Json → Json
-        | [] => .obj []
-        | (.arr [p, .arr replies]) :: rest =>
+      let rec find : List Json → Option (List Json × List Json)
+        | [] => none
+        | (.arr (p :: .arr replies :: more)) :: rest =>
           if canon (maskCause p) = canon (maskCause payload) then
-            (match replies[n]? with
-             | some r => r
-             | none => replies.getLast?.getD (.obj []))
+            some (replies, match more with | [.arr ds] => ds | _ => [])
           else find rest
         | _ :: rest => find rest
       find entries
-    | _ => .obj []
-  | _ => .obj []
+    | _ => none
+  | _ => none
+
+def nthOrLast (xs : List Json) (n : Nat) : Option Json :=
+  match xs[n]? with
+  | some r => some r
+  | none => xs.getLast?
+
+def oracleFn (o : Json) : TaskFn := fun fn payload n =>
+  match oracleEntry o fn payload with
+  | some (replies, _) => (nthOrLast replies n).getD (.obj [])
+  | none => .obj []
+
+def oracleDelay (o : Json) : Str → Json → Nat → Option Rat := fun fn payload n =>
+  match oracleEntry o fn payload with
+  | some (_, delays) =>
+    (match nthOrLast delays n with
+     | some (.num d) => some (d : Rat)
+     | some .null => none
+     | _ => some 10)
+  | none => some 10
 
 def optJ : Option Json → Json
   | some j => j
@@ -68,6 +86,7 @@ def evJson : Ev → Json
   | .lambdaScheduled i r => .arr [.str (S "LambdaFunctionScheduled"), .null, .obj [(S "input", i), (S "resource", .str r)]]
   | .lambdaSucceeded o => .arr [.str (S "LambdaFunctionSucceeded"), .null, .obj [(S "output", o)]]
   | .lambdaFailed e c => .arr [.str (S "LambdaFunctionFailed"), .null, .obj [(S "error", e), (S "cause", c)]]
+  | .lambdaTimedOut => .arr [.str (S "LambdaFunctionTimedOut"), .null, .obj [(S "error", .str (S "States.Timeout"))]]
   | .fanStarted ty l => .arr [.str (ty ++ S "StateStarted"), .null,
       (match l with | some n => .obj [(S "length", .num n)] | none => .obj [])]
   | .iterStarted n i => .arr [.str (S "MapIterationStarted"), .str n, .obj [(S "index", .num i)]]
@@ -77,13 +96,23 @@ def evJson : Ev → Json
   | .execSucceeded o => .arr [.str (S "ExecutionSucceeded"), .null, .obj [(S "output", o)]]
   | .execFailed e c => .arr [.str (S "ExecutionFailed"), .null, .obj [(S "error", .str e), (S "cause", optJ c)]]
 
+/-- an instant: a whole number of milliseconds as a number, else the text "num/den" -/
+def ratJson (r : Rat) : Json :=
+  if r.den = 1 then .num r.num else .str ((toString r.num ++ "/" ++ toString r.den).toList)
+
+/-- `[type, name, detail, t_ms]` -/
+def timedJson (e : Ev) (t : Rat) : Json :=
+  match evJson e with
+  | .arr xs => .arr (xs ++ [ratJson t])
+  | j => j
+
 def outcomeJson (o : Outcome) : Json :=
   .obj [(S "status", .str o.status), (S "output", optJ o.output),
         (S "error", match o.error with | some e => .str e | none => .null),
         (S "cause", optJ o.cause), (S "failState", .bool o.failState),
-        (S "trace", .arr (o.trace.map .str)), (S "multiFail", .bool o.multiFail),
+        (S "trace", .arr (o.trace.map .str)), (S "multiFail", .bool o.multiFail), (S "tieFail", .bool o.tieFail),
         (S "log", .arr (o.log.filterMap evShort)), (S "requests", .num o.requests), (S "fanFail", .bool o.fanFail),
-        (S "history", .arr (o.history.map evJson)),
+        (S "history", .arr (List.zipWith timedJson o.history o.times)), (S "endTime", ratJson o.endTime),
         (S "notifications", .arr (o.notifications.map (fun n => .arr [.str n.1, n.2])))]
 
 mutual
@@ -128,7 +157,7 @@ def runFull (asl input ctx oracle fuel : String) (maxData : Option Nat) : String
   | some a, some i, some c, some o, some f =>
     if !fullSupported 200 a then "unsupported"
     else
-      let env0 : Env := { tmpl := fullTmpl, choose := fullChoose, task := oracleFn o }
+      let env0 : Env := { tmpl := fullTmpl, choose := fullChoose, task := oracleFn o, delay := oracleDelay o }
       let env : Env := match maxData with
         | some l => { env0 with maxData := l }
         | none => env0
@@ -152,7 +181,7 @@ def handle : List String → String
     | some a, some i, some c, some o, some f =>
       if !Lite.machineSupported 200 a then "unsupported"
       else
-        let env : Env := { tmpl := Lite.tmpl, choose := Lite.choose, task := oracleFn o }
+        let env : Env := { tmpl := Lite.tmpl, choose := Lite.choose, task := oracleFn o, delay := oracleDelay o }
         "ok\t" ++ js (outcomeJson (run env f a i c))
     | _, _, _, _, _ => "unsupported"
   | _ => "bad-op"
